@@ -23,6 +23,14 @@ type c12Case struct {
 	RPlan        []pair.ReadEv    `json:"rplan"`
 	Cut          int              `json:"cut"` // -1: deliver everything that was written; else only this many bytes
 	Family       string           `json:"family"`
+	// Continue: the sender goes on using the transport after a Send reported an error (the failed envelope
+	// put no byte, or only a proper prefix, on the connection). The receiver must then get exactly the
+	// envelopes whose Send reported success, in order, possibly ending in an error — never the one that
+	// was reported as not sent.
+	Continue bool `json:"continue,omitempty"`
+	// ReadLimit configures the receiving transport (0: the default). A long fault-free stream of small
+	// envelopes must come through whatever the total traffic is: the limit is per envelope.
+	ReadLimit int64 `json:"read_limit,omitempty"`
 }
 
 func sendAny(ctx context.Context, t lime.Transport, e interface{}) error {
@@ -195,7 +203,7 @@ func c12Run(e *Env, c *c12Case) error {
 		} else if err == nil && !bytes.Equal(refs[i], w) {
 			e.Rep.Violate("impl", "c12-write-short", fmt.Sprintf("Send #%d reported success but only %d of %d bytes reached the connection", i, len(w), len(refs[i])), c)
 		}
-		if e.Drv != nil {
+		if e.Drv != nil && allOK {
 			var r struct {
 				Wire []int `json:"wire"`
 				OK   bool  `json:"ok"`
@@ -210,8 +218,13 @@ func c12Run(e *Env, c *c12Case) error {
 		}
 		if err != nil {
 			allOK = false
-			break // a failed Send ends the use of the connection
+			if !c.Continue {
+				break // a failed Send ends the use of the connection
+			}
 		}
+	}
+	if c.Continue {
+		return c12JudgeContinue(e, c, obs, refs, wire)
 	}
 
 	// ---- receiving side: the real Receive over what reached the connection
@@ -221,7 +234,11 @@ func c12Run(e *Env, c *c12Case) error {
 		e.Rep.Count("read: stream cut")
 	}
 	rc := &pair.FaultConn{In: delivered, ReadPlan: append([]pair.ReadEv{}, c.RPlan...)}
-	rx := lime.NewTCPTransportFromConn(rc, true, nil)
+	var rcfg *lime.TCPConfig
+	if c.ReadLimit > 0 {
+		rcfg = &lime.TCPConfig{ReadLimit: c.ReadLimit}
+	}
+	rx := lime.NewTCPTransportFromConn(rc, true, rcfg)
 	var got [][]byte
 	calls := 0      // Receive calls up to and including the first error
 	consumedAtErr := -1
@@ -342,6 +359,44 @@ func c12Run(e *Env, c *c12Case) error {
 	return nil
 }
 
+// c12JudgeContinue: the receiving side of a case in which the sender went on after a failed Send.
+func c12JudgeContinue(e *Env, c *c12Case, obs *c12Obs, refs [][]byte, wire []byte) error {
+	rc := &pair.FaultConn{In: wire, ReadPlan: append([]pair.ReadEv{}, c.RPlan...)}
+	rx := lime.NewTCPTransportFromConn(rc, true, nil)
+	var got [][]byte
+	for n := 0; n < len(c.Envs)+2; n++ {
+		ctx, cancel := context.WithTimeout(context.Background(), 10*time.Second)
+		env, err, pv := recvGuard(ctx, rx)
+		cancel()
+		if pv != "" {
+			e.Rep.Violate("impl", "c12-panic", "Receive panics: "+pv, c)
+			return nil
+		}
+		if err != nil {
+			obs.Received = append(obs.Received, "err:"+err.Error())
+			break
+		}
+		b, _ := json.Marshal(env)
+		got = append(got, b)
+		obs.Received = append(obs.Received, string(b))
+	}
+	okRefs := [][]byte{}
+	for i, ok := range obs.SendOK {
+		if ok {
+			okRefs = append(okRefs, refs[i][:len(refs[i])-1])
+		}
+	}
+	e.Rep.Nontrivial(fmt.Sprintf("cont %v %d", obs.SendOK, len(wire)))
+	for i, b := range got {
+		if i >= len(okRefs) || !bytes.Equal(b, okRefs[i]) {
+			e.Rep.Violate("impl", "c12-recv-unsent", fmt.Sprintf("the sender went on after a failed Send (sends ok=%v); Receive #%d handed out %q, which is not envelope #%d of those reported as sent", obs.SendOK, i, b, i), c)
+			break
+		}
+	}
+	e.Rep.Sample(map[string]interface{}{"case": c, "observed": obs}, 2)
+	return nil
+}
+
 func compactOut(out []json.RawMessage) string {
 	s := "["
 	for i, o := range out {
@@ -445,6 +500,20 @@ func init() {
 					}
 				}
 			}
+			// the sender goes on after a Send that failed before / in the middle of its write
+			f2 := jsonMsg("f2", `{"k":"after"}`)
+			if err := run(&c12Case{Family: "w-continue-ctx-before", Envs: []*codec.VEnv{follow, v, f2, follow}, CancelBefore: 1, Cut: -1, Continue: true}); err != nil {
+				return err
+			}
+			if n := len(c12Ref(v)); n > 2 {
+				k := 1 + e.Rng.Intn(n-2)
+				if err := run(&c12Case{Family: "w-continue-timeout-ctx", Envs: []*codec.VEnv{follow, v, f2}, WPlans: [][]pair.WriteEv{nil, {{Kind: "t", N: k, Cancel: true}}}, CancelBefore: -1, Cut: -1, Continue: true}); err != nil {
+					return err
+				}
+				if err := run(&c12Case{Family: "w-continue-timeout0-ctx", Envs: []*codec.VEnv{follow, v, f2}, WPlans: [][]pair.WriteEv{nil, {{Kind: "t", N: 0, Cancel: true}}}, CancelBefore: -1, Cut: -1, Continue: true}); err != nil {
+					return err
+				}
+			}
 			if err := run(&c12Case{Family: "w-ctx-before", Envs: []*codec.VEnv{v}, CancelBefore: 0, Cut: -1}); err != nil {
 				return err
 			}
@@ -498,6 +567,21 @@ func init() {
 		// --- random: write faults and read faults together, longer streams
 		for i := 0; i < e.N(400, 20000); i++ {
 			envs := c12Envs(e, g, 1+e.Rng.Intn(6))
+			if i < e.N(6, 60) {
+				// a long fault-free stream against a small per-envelope read limit: total traffic is many
+				// times the limit
+				long := []*codec.VEnv{}
+				for k := 0; k < 150; k++ {
+					long = append(long, jsonMsg(fmt.Sprintf("L%d", k), `{"k":"`+strings.Repeat("x", 40+e.Rng.Intn(200))+`"}`))
+				}
+				lc := &c12Case{Family: "long-stream", Envs: long, Cut: -1, CancelBefore: -1, ReadLimit: 2048}
+				if i%2 == 1 {
+					lc.RPlan = randomReadPlan(e, 150*200)
+				}
+				if err := run(lc); err != nil {
+					return err
+				}
+			}
 			c := &c12Case{Family: "random", Envs: envs, Cut: -1, CancelBefore: -1}
 			total := 0
 			for j, v := range envs {
